@@ -210,6 +210,12 @@ func textForms(s string) []struct {
 	if s != "" {
 		out = append(out, f{lib.Key(), s, "unused", "row"})
 	}
+	// the same text as the result of another construct (the engine then holds
+	// it in another representation than a stored value or a literal)
+	out = append(out, f{lib.Bin("+", lib.Value(), lib.Str("")), "k", s, "row-derived"})
+	if !strings.Contains(s, "|") {
+		out = append(out, f{lib.Index(lib.Call("split", lib.Value(), lib.Str("|")), 0), "k", s, "row-derived"})
+	}
 	return out
 }
 
